@@ -9,6 +9,7 @@ import (
 	"os"
 	"testing"
 
+	"verifharness/bpfnative"
 	"verifharness/core"
 )
 
@@ -51,8 +52,99 @@ func findSys(name string) *Sys {
 		if s.Name() == name {
 			return s
 		}
+		if f := s.WithFastPath(); f.Name() == name {
+			return f
+		}
 	}
 	return nil
+}
+
+func setupFP(t *testing.T, out string) {
+	p, err := bpfnative.Build("dhcp", out)
+	if err != nil {
+		t.Fatal(err)
+	}
+	FPDriverPath = p
+	d, err := bpfnative.Start(p)
+	if err != nil {
+		t.Fatal(err)
+	}
+	FPMapInfos, err = d.Maps()
+	if err != nil {
+		t.Fatal(err)
+	}
+	fpPutDriver(d)
+}
+
+// TestExploreFP: the slow path drives the cache, the natively compiled XDP program answers a
+// battery of frames in every state (property C03).
+func TestExploreFP(t *testing.T) {
+	T = t
+	out := core.OutDir()
+	setupFP(t, out)
+	if rf := os.Getenv("VERIF_REPLAY"); rf != "" {
+		replay(t, rf, out)
+		return
+	}
+	tier, seed := core.Tier(), core.Seed()
+	bundle := &core.Bundle{}
+	st := runStats{PerSystem: map[string][3]int{}}
+	all := systems()
+	type plan struct {
+		s               *Sys
+		depth, maxNodes int
+	}
+	plans := []plan{{all[0].WithFastPath(), 4, 500}, {all[2].WithFastPath(), 3, 300}}
+	nchains, chainLen := 6, 80
+	if tier == "thorough" {
+		plans = []plan{{all[0].WithFastPath(), 6, 6000}, {all[2].WithFastPath(), 5, 4000}, {all[1].WithFastPath(), 4, 3000}}
+		nchains, chainLen = 60, 200
+	}
+	for _, p := range plans {
+		tab, panics, err := core.Explore(p.s, core.ExploreOptions{MaxDepth: p.depth, MaxNodes: p.maxNodes, AdequacySample: 3, Seed: seed, Workers: 8})
+		if err != nil {
+			t.Fatalf("explore %s: %v", p.s.Name(), err)
+		}
+		st.Panics = append(st.Panics, panics...)
+		bundle.Systems = append(bundle.Systems, tab)
+		ne := 0
+		for _, es := range tab.Edges {
+			ne += len(es)
+		}
+		c := 0
+		if tab.Closed {
+			c = 1
+			st.Closed++
+		}
+		st.PerSystem[p.s.Name()] = [3]int{len(tab.Nodes), ne, c}
+		st.Systems++
+		st.Nodes += len(tab.Nodes)
+		st.Edges += ne
+	}
+	rng := rand.New(rand.NewSource(seed))
+	for _, s := range []*Sys{all[1].WithFastPath(), all[3].WithFastPath()} {
+		evs := s.Events()
+		for c := 0; c < nchains; c++ {
+			var seqv []core.Event
+			for i := 0; i < chainLen; i++ {
+				seqv = append(seqv, evs[rng.Intn(len(evs))])
+			}
+			tab, pr := core.Chain(s, fmt.Sprintf("%s#%d", s.Name(), c), seqv, false)
+			if pr != nil {
+				st.Panics = append(st.Panics, *pr)
+				continue
+			}
+			bundle.Systems = append(bundle.Systems, tab)
+			st.Chains++
+			st.ChainEvents += len(seqv)
+		}
+	}
+	if err := core.WriteJSON(out, "bundle.json", bundle); err != nil {
+		t.Fatal(err)
+	}
+	if err := core.WriteJSON(out, "stats.json", st); err != nil {
+		t.Fatal(err)
+	}
 }
 
 func TestExplore(t *testing.T) {
